@@ -4,51 +4,87 @@ import TR.Lemmas.ChaosHandles
 /-!
 # C19 — chaos injection is reproducible and bounded; injected errors skip the inner call
 
-Quantification. "All seeds" = every generator `G : Gen γ` (any state space, any algorithm)
-started in any state `g`, assuming only the contracts of `rand` (`Lawful`: a roll is `< 1`, a
-range draw lies in the range). "All rates in [0,1]" = all thresholds `eT, lT` (a rate `p` is the
-threshold `⌈p·2⁵³⌉`; `0 ⟺ p = 0`, `P53 = 2⁵³ ⟺ p = 1`; nothing below assumes `eT, lT ≤ 2⁵³`
-except where `= P53` is the hypothesis). "All ranges" = all `minMs, maxMs : Nat`, including
-`min = max` and `min > max`. "All request counts / orders" = all operation lists of the
-poll-level machine: any number of requests, every order of arrivals, polls, cancellations and
-clock advances, every scripted inner latency/outcome — and the caller dropping every handle of the
-service (`Op.dropsvc` / `ROp.dropsvc`) at any point of the list: every theorem below that quantifies over
-operation lists holds for lists containing it.
+Quantification. The property says the decisions are "a deterministic function of the seed and the order of
+requests" — not WHICH function. "All seeds" (and all admissible decision functions, all generator algorithms)
+= every family of decision streams `σ : service → index → Decision`: `σ k i` is what the seed stands for as
+the decision of the `i`-th request to be first polled on service `k` of the layer. The boundary clauses are
+hypotheses on the stream, not on how it is produced: `allowedDec cfg (σ k i)` (error rate 0 ⇒ never an error,
+error rate 1 ⇒ always; latency rate 0 ⇒ never a delay, latency rate 1 ⇒ every request not failed is delayed;
+a delay lies within the bounds). Today's code (`decideG`: error roll, latency roll, range draw over `StdRng`) is
+one instance: `todays_function_is_admissible`, for every generator `G : Gen γ` within the contracts of `rand`
+(`Lawful`). A refactor that changes the draw scheme and stays deterministic is another instance of the same
+theorems. "All rates in [0,1]" = all thresholds `eT, lT` (a rate `p` is the threshold `⌈p·2⁵³⌉`; `0 ⟺ p = 0`,
+`P53 = 2⁵³ ⟺ p = 1`). "All ranges" = all `minMs, maxMs : Nat`, including `min = max` and `min > max`. "All request
+counts / orders" = all operation lists of the poll-level machine: any number of requests on any number of services
+built from the one layer value, every order of arrivals, polls, cancellations and clock advances, every scripted
+inner latency/outcome — and the caller dropping every handle of the services (`dropsvc`) at any point.
+
+The machine (`stepS`, `run`) CONSUMES the decision reported with a first poll (`Op.poll c (some d)`): it does not
+predict it. `runD σ` is the machine fed from the streams `σ`.
 -/
 namespace TR.Props.C19
 open TR TR.Chaos
 
 /-! ## reproducible -/
 
-/-- **Deterministic function of the seed and the order of requests.** Drive the machine with
-any operation list, the generator threaded through it (each first poll sees the generator's next
-draws and advances it by what the decision consumed): the list of decisions (inject / delay by
-`ms` / pass, in the order of the first polls) is the first `n` entries of `streamG G cfg g`, which
-depends on nothing but the configuration and the seed — not on the instants, the payloads, the
-inner outcomes, the cancellations, or how polls of different requests interleave. -/
-theorem decisions_are_seed_stream {γ : Type} (G : Gen γ) (cfg : Cfg) (g : γ) (ops : List ROp) :
-    (runR G cfg g ops).1.decs = streamG G cfg g (runR G cfg g ops).1.decs.length ∧
-    (runR G cfg g ops).2 = genAfter G cfg g (runR G cfg g ops).1.decs.length :=
-  runR_synced G cfg g ops
+/-- **Deterministic function of the seed and the order of requests.** Feed the machine from ANY family of
+decision streams `σ` (one per service built from the layer value) and drive it with ANY operation list: the
+decisions taken on service `k` (inject / delay by `ms` / pass, in the order of the first polls on `k`) are the
+first `n` entries of `σ k` — they depend on nothing but the stream of that service and the rank of the request
+among the first polls on that service: not on the instants, the payloads, the inner outcomes, the cancellations,
+how polls of different requests interleave, or how much traffic the OTHER services of the layer have served. -/
+theorem decisions_are_stream (σ : Nat → Nat → Decision) (cfg : Cfg) (ops : List ROp) (k : Nat) :
+    decsOn (runD σ cfg ops) k = (List.range (decsOn (runD σ cfg ops) k).length).map (σ k) :=
+  runD_fed σ cfg ops k
 
-/-- Two equally seeded instances that have decided the same number of requests have taken the
-same decisions and injected the same latencies, whatever else differs between the two runs. -/
-theorem deterministic {γ : Type} (G : Gen γ) (cfg : Cfg) (g : γ) (ops₁ ops₂ : List ROp)
-    (h : (runR G cfg g ops₁).1.decs.length = (runR G cfg g ops₂).1.decs.length) :
-    (runR G cfg g ops₁).1.decs = (runR G cfg g ops₂).1.decs ∧ (runR G cfg g ops₁).2 = (runR G cfg g ops₂).2 := by
-  have h1 := runR_synced G cfg g ops₁
-  have h2 := runR_synced G cfg g ops₂
-  exact ⟨by rw [h1.1, h2.1, h], by rw [h1.2, h2.2, h]⟩
+/-- Two runs of the same service `k` under the same streams (say two equally seeded instances, driven at different
+instants, with different payloads, polled in different interleavings, next to different traffic on the other
+services) that have decided the same number of requests on `k` have taken the same decisions and injected the
+same latencies on `k`. -/
+theorem deterministic (σ : Nat → Nat → Decision) (cfg : Cfg) (ops₁ ops₂ : List ROp) (k : Nat)
+    (h : (decsOn (runD σ cfg ops₁) k).length = (decsOn (runD σ cfg ops₂) k).length) :
+    decsOn (runD σ cfg ops₁) k = decsOn (runD σ cfg ops₂) k := by
+  rw [runD_fed σ cfg ops₁ k, runD_fed σ cfg ops₂ k, h]
 
 /-- …and the instance that has seen fewer requests has taken a prefix of the other's decisions. -/
-theorem deterministic_prefix {γ : Type} (G : Gen γ) (cfg : Cfg) (g : γ) (ops : List ROp) (n : Nat)
-    (h : (runR G cfg g ops).1.decs.length = n) : (runR G cfg g ops).1.decs = streamG G cfg g n := by
-  rw [← h]; exact (runR_synced G cfg g ops).1
+theorem deterministic_prefix (σ : Nat → Nat → Decision) (cfg : Cfg) (ops : List ROp) (k n : Nat)
+    (h : (decsOn (runD σ cfg ops) k).length = n) : decsOn (runD σ cfg ops) k = (List.range n).map (σ k) := by
+  rw [← h]; exact runD_fed σ cfg ops k
 
-/-- The draws handed to the model by the harness decide exactly like the generator itself. -/
-theorem draws_agree_with_generator {γ : Type} (G : Gen γ) (cfg : Cfg) (g : γ) :
-    (decideDraws cfg (view G cfg g)).1 = (decideG G cfg g).1 :=
-  decideG_view G cfg g
+/-- **Equally seeded services agree request by request** — in particular two services obtained from ONE layer
+value (`layer.layer(a)`, `layer.layer(b)`: the same configuration and seed, hence the same stream): whenever they
+have decided the same number of requests they have taken the same decisions, within one run or across two runs,
+however the traffic of the two (and of any further service) was interleaved. -/
+theorem equally_seeded_services_agree (σ : Nat → Nat → Decision) (cfg : Cfg) (ops₁ ops₂ : List ROp) (j k : Nat)
+    (hσ : σ j = σ k) (h : (decsOn (runD σ cfg ops₁) j).length = (decsOn (runD σ cfg ops₂) k).length) :
+    decsOn (runD σ cfg ops₁) j = decsOn (runD σ cfg ops₂) k := by
+  rw [runD_fed σ cfg ops₁ j, runD_fed σ cfg ops₂ k, h, hσ]
+
+/-- A fresh service of a seeded layer replays the seeded sequence from its start, regardless of the requests a
+sibling has served: the `i`-th decision on service `k` is `σ k i`. -/
+theorem service_decision_is_stream_entry (σ : Nat → Nat → Decision) (cfg : Cfg) (ops : List ROp) (k i : Nat)
+    (h : i < (decsOn (runD σ cfg ops) k).length) : (decsOn (runD σ cfg ops) k)[i]? = some (σ k i) := by
+  rw [runD_fed σ cfg ops k]
+  simp [h]
+
+/-- **The services of one layer value are independent.** A poll of a request made on one service leaves the
+decisions of every other service as they were (whatever decision is reported with it), and leaves every other
+request — of whichever service — alone: its phase, its decision, and the events about it. -/
+theorem services_independent (cfg : Cfg) (s : State) (c : Nat) (d : Option Decision) (j : Nat)
+    (h : svcOfFresh s c ≠ j) :
+    decsOn (stepS cfg s (.poll c d)) j = decsOn s j ∧
+    (∀ c', c ≠ c' → lookup (stepS cfg s (.poll c d)).phase c' = lookup s.phase c' ∧
+                     lookup (stepS cfg s (.poll c d)).decOf c' = lookup s.decOf c') ∧
+    (∃ evs, (stepS cfg s (.poll c d)).log = s.log ++ evs ∧ ∀ e ∈ evs, ∀ x, about e = some x → x = c) :=
+  have t := touches_poll cfg s c d
+  ⟨step_other_service cfg s c d j h, fun c' hne => ⟨t.phase c' hne, t.dec c' hne⟩, t.log⟩
+
+/-- A run fed from streams is a run of the machine on the operations annotated with the streams' entries: every
+theorem below about `run` applies to it. -/
+theorem fed_run_is_a_run (σ : Nat → Nat → Decision) (cfg : Cfg) (ops : List ROp) :
+    runD σ cfg ops = run cfg (annotated σ cfg init ops) ∧
+    ∀ c d, Op.poll c (some d) ∈ annotated σ cfg init ops → ∃ k i, d = σ k i :=
+  ⟨runD_eq_run σ cfg ops, fun c d h => annotated_from_stream σ cfg ops init c d h⟩
 
 /-! ## injected errors skip the inner call -/
 
@@ -67,119 +103,106 @@ theorem inner_call_only_without_error (cfg : Cfg) (ops : List Op) (c k : Nat)
 
 /-- The first poll of a request whose decision is "inject": the configured error is the
 result of that very poll, no serial is consumed (no inner call), no timer is started. -/
-theorem error_result_immediate (cfg : Cfg) (s : State) (c tag : Nat) (st : Step) (d : Draws)
-    (hph : lookup s.phase c = some (.fresh tag st)) (ha : allowed cfg d = true)
-    (hd : (decideDraws cfg d).1 = .error) :
-    (stepS cfg s (.poll c (some d))).log = s.log ++ [.result c (injected tag)] ∧
-    (stepS cfg s (.poll c (some d))).serial = s.serial ∧
-    lookup (stepS cfg s (.poll c (some d))).phase c = some .done := by
-  simp [stepS, hph, pollFresh, hd, enact, checked, ha, record, emit, setPhase, lookup]
+theorem error_result_immediate (cfg : Cfg) (s : State) (c k tag : Nat) (st : Step)
+    (hph : lookup s.phase c = some (.fresh k tag st)) (ha : allowedDec cfg .error = true) :
+    (stepS cfg s (.poll c (some .error))).log = s.log ++ [.result c (injected tag)] ∧
+    (stepS cfg s (.poll c (some .error))).serial = s.serial ∧
+    lookup (stepS cfg s (.poll c (some .error))).phase c = some .done := by
+  simp [stepS, hph, pollFresh, enact, checked, ha, record, emit, setPhase, lookup]
+
+/-- The same for the machine fed from streams: no request decided "inject" has an inner call. -/
+theorem error_skips_inner_stream (σ : Nat → Nat → Decision) (cfg : Cfg) (ops : List ROp) (c k : Nat)
+    (h : lookup (runD σ cfg ops).decOf c = some .error) : Ev.innerCall c k ∉ (runD σ cfg ops).log := by
+  rw [runD_eq_run] at h ⊢
+  exact error_no_inner_call cfg _ c k h
 
 /-! ## transparent at rate 0 -/
 
-/-- With both rates 0 the decision is "pass" and **no draw is consumed**: the generator is
-left in the state it was in. -/
-theorem transparent_at_zero {γ : Type} (G : Gen γ) (cfg : Cfg) (g : γ) (he : cfg.eT = 0) (hl : cfg.lT = 0) :
-    decideG G cfg g = (.pass, g) :=
-  decideG_zero G cfg g he hl
-
-/-- The same for draws as inputs: "pass", 0 draws, whatever the draws are. -/
-theorem transparent_at_zero_draws (cfg : Cfg) (d : Draws) (he : cfg.eT = 0) (hl : cfg.lT = 0) :
-    decideDraws cfg d = (.pass, 0) := by
-  rw [decideDraws_eq]; simp [he, hl]
+/-- With both rates 0 the only decision the property allows is "pass" — whatever the decision function. -/
+theorem transparent_at_zero (cfg : Cfg) (d : Decision) (he : cfg.eT = 0) (hl : cfg.lT = 0)
+    (ha : allowedDec cfg d = true) : d = .pass := by
+  cases d with
+  | error => simp [allowedDec, he] at ha
+  | latency ms => simp [allowedDec, hl] at ha
+  | pass => rfl
 
 /-- …and the layer is transparent: the first poll calls the wrapped service in that very step
 (the first new event is the inner call), and the step is the one a bare inner call makes. -/
-theorem transparent_first_poll (cfg : Cfg) (s : State) (c tag : Nat) (st : Step) (d : Draws)
-    (he : cfg.eT = 0) (hl : cfg.lT = 0) (hph : lookup s.phase c = some (.fresh tag st))
-    (ha : allowed cfg d = true) :
-    stepS cfg s (.poll c (some d)) = startInner (record s c .pass 0) c st ∧
+theorem transparent_first_poll (cfg : Cfg) (s : State) (c k tag : Nat) (st : Step) (d : Decision)
+    (he : cfg.eT = 0) (hl : cfg.lT = 0) (hph : lookup s.phase c = some (.fresh k tag st))
+    (ha : allowedDec cfg d = true) :
+    stepS cfg s (.poll c (some d)) = startInner (record s c k .pass) c st ∧
     ∃ rest, (stepS cfg s (.poll c (some d))).log = s.log ++ Ev.innerCall c s.serial :: rest := by
-  have hd := transparent_at_zero_draws cfg d he hl
-  have h1 : stepS cfg s (.poll c (some d)) = startInner (record s c .pass 0) c st := by
-    simp [stepS, hph, pollFresh, hd, enact, checked, ha]
+  have hd := transparent_at_zero cfg d he hl ha
+  subst hd
+  have h1 : stepS cfg s (.poll c (some .pass)) = startInner (record s c k .pass) c st := by
+    simp [stepS, hph, pollFresh, enact, checked, ha]
   refine ⟨h1, ?_⟩
   rw [h1]
-  exact startInner_log (record s c .pass 0) c st
+  exact startInner_log (record s c k .pass) c st
 
-/-- In every run with both rates 0 every recorded decision is "pass". -/
+/-- In every run with both rates 0 (reported decisions within the boundary clauses) every recorded decision is
+"pass". -/
 theorem transparent_run (cfg : Cfg) (ops : List Op) (c : Nat) (dec : Decision)
-    (he : cfg.eT = 0) (hl : cfg.lT = 0) (h : lookup (run cfg ops).decOf c = some dec) : dec = .pass := by
-  obtain ⟨d, _, hd⟩ := decision_from_draws cfg ops c dec h
-  rw [hd, transparent_at_zero_draws cfg d he hl]
+    (he : cfg.eT = 0) (hl : cfg.lT = 0)
+    (hall : ∀ c d, Op.poll c (some d) ∈ ops → allowedDec cfg d = true)
+    (h : lookup (run cfg ops).decOf c = some dec) : dec = .pass :=
+  transparent_at_zero cfg dec he hl (hall c dec (decision_from_obs cfg ops c dec h))
 
 /-! ## always fails at rate 1 -/
 
-/-- With error rate 1 every decision is "inject an error" (one draw: the error roll). -/
-theorem always_fails_at_one {γ : Type} (G : Gen γ) (cfg : Cfg) (g : γ) (hL : Lawful cfg G) (he : cfg.eT = P53) :
-    decideG G cfg g = (.error, (G.nextF g).2) :=
-  decideG_one G cfg g hL he
+/-- With error rate 1 the only decision the property allows is "inject an error". -/
+theorem always_fails_at_one (cfg : Cfg) (d : Decision) (he : cfg.eT = P53) (ha : allowedDec cfg d = true) :
+    d = .error := by
+  cases d with
+  | error => rfl
+  | latency ms => simp [allowedDec, he] at ha
+  | pass => simp [allowedDec, he] at ha
 
-theorem always_fails_at_one_draws (cfg : Cfg) (d : Draws) (ha : allowed cfg d = true) (he : cfg.eT = P53) :
-    decideDraws cfg d = (.error, 1) := by
-  rw [decideDraws_eq]
-  have h1 : d.r1 < P53 := by
-    unfold allowed at ha
-    simp only [Bool.and_eq_true, decide_eq_true_eq] at ha
-    exact ha.1.1
-  have h0 : 0 < P53 := by decide
-  simp [he, h1, h0]
-
-/-- In every run with error rate 1 (draws within the contract): the wrapped service is never
+/-- In every run with error rate 1 (reported decisions within the boundary clauses): the wrapped service is never
 called — the log contains no `inner_call` at all. -/
 theorem always_fails_run (cfg : Cfg) (ops : List Op) (he : cfg.eT = P53)
-    (hall : ∀ c d, Op.poll c (some d) ∈ ops → allowed cfg d = true) (c k : Nat) :
+    (hall : ∀ c d, Op.poll c (some d) ∈ ops → allowedDec cfg d = true) (c k : Nat) :
     Ev.innerCall c k ∉ (run cfg ops).log := by
   intro hmem
   obtain ⟨dec, h1, h2⟩ := inner_call_decision cfg ops c k hmem
-  obtain ⟨d, hin, hd⟩ := decision_from_draws cfg ops c dec h1
-  rw [always_fails_at_one_draws cfg d (hall c d hin) he] at hd
-  exact h2 hd
+  exact h2 (always_fails_at_one cfg dec he (hall c dec (decision_from_obs cfg ops c dec h1)))
+
+/-- …for every admissible family of streams (every seed, every decision function): fed from it, no run of any
+number of services ever calls a wrapped service. -/
+theorem always_fails_fed (σ : Nat → Nat → Decision) (cfg : Cfg) (ops : List ROp) (he : cfg.eT = P53)
+    (hσ : ∀ k i, allowedDec cfg (σ k i) = true) (c k : Nat) : Ev.innerCall c k ∉ (runD σ cfg ops).log := by
+  rw [runD_eq_run]
+  apply always_fails_run cfg _ he
+  intro c d hin
+  obtain ⟨k, i, rfl⟩ := annotated_from_stream σ cfg ops init c d hin
+  exact hσ k i
 
 /-! ## injected latency is bounded -/
 
-/-- An injected latency lies within `[min, max]` when that interval is non-empty (including
+/-- An injected latency the property allows lies within `[min, max]` when that interval is non-empty (including
 `min = max`); when `min > max` (empty interval) the code uses `min`, and so does the model. -/
-theorem latency_in_range {γ : Type} (G : Gen γ) (cfg : Cfg) (g : γ) (ms : Nat) (hL : Lawful cfg G)
-    (h : (decideG G cfg g).1 = .latency ms) :
-    (cfg.minMs ≤ cfg.maxMs → cfg.minMs ≤ ms ∧ ms ≤ cfg.maxMs) ∧ (cfg.maxMs ≤ cfg.minMs → ms = cfg.minMs) :=
-  decideG_latency_range G cfg g ms hL h
-
-theorem latency_in_range_draws (cfg : Cfg) (d : Draws) (ms : Nat) (ha : allowed cfg d = true)
-    (h : (decideDraws cfg d).1 = .latency ms) :
+theorem latency_in_range (cfg : Cfg) (ms : Nat) (ha : allowedDec cfg (.latency ms) = true) :
     (cfg.minMs ≤ cfg.maxMs → cfg.minMs ≤ ms ∧ ms ≤ cfg.maxMs) ∧ (cfg.maxMs ≤ cfg.minMs → ms = cfg.minMs) := by
-  rw [decideDraws_eq] at h
-  unfold allowed inRange at ha
-  simp only [Bool.and_eq_true, Bool.or_eq_true, Bool.not_eq_true', decide_eq_true_eq, decide_eq_false_iff_not] at ha
-  by_cases h1 : cfg.eT > 0 ∧ d.r1 < cfg.eT
-  · simp [h1] at h
-  · by_cases h2 : cfg.lT > 0
-    · by_cases h3 : (if cfg.eT > 0 then d.r2 else d.r1) < cfg.lT
-      · by_cases hm : cfg.maxMs > cfg.minMs
-        · simp only [h1, h2, h3, hm, ↓reduceIte] at h
-          have hg := ha.2.resolve_left (by omega)
-          have h' : Decision.latency (if cfg.eT > 0 then d.g2 else d.g1) = Decision.latency ms := h
-          injection h' with h'
-          split at h' <;> (subst h'; omega)
-        · simp only [h1, h2, h3, hm, ↓reduceIte] at h
-          have h' : Decision.latency cfg.minMs = Decision.latency ms := h
-          injection h' with h'
-          subst h'; omega
-      · simp [h1, h2, h3] at h
-    · simp [h1, h2] at h
+  unfold allowedDec inBounds at ha
+  simp only [Bool.and_eq_true, decide_eq_true_eq] at ha
+  by_cases hm : cfg.maxMs > cfg.minMs
+  · simp only [hm, if_true, Bool.and_eq_true, decide_eq_true_eq] at ha
+    exact ⟨fun _ => ha.2, fun hle => by omega⟩
+  · simp only [hm, if_false, decide_eq_true_eq] at ha
+    exact ⟨fun hle => by omega, fun _ => ha.2⟩
 
-/-- In every run (draws within the contract) every recorded latency is within the bounds. -/
+/-- In every run (reported decisions within the boundary clauses) every recorded latency is within the bounds. -/
 theorem latency_in_range_run (cfg : Cfg) (ops : List Op) (c ms : Nat)
-    (hall : ∀ c d, Op.poll c (some d) ∈ ops → allowed cfg d = true)
+    (hall : ∀ c d, Op.poll c (some d) ∈ ops → allowedDec cfg d = true)
     (h : lookup (run cfg ops).decOf c = some (.latency ms)) :
-    (cfg.minMs ≤ cfg.maxMs → cfg.minMs ≤ ms ∧ ms ≤ cfg.maxMs) ∧ (cfg.maxMs ≤ cfg.minMs → ms = cfg.minMs) := by
-  obtain ⟨d, hin, hd⟩ := decision_from_draws cfg ops c _ h
-  exact latency_in_range_draws cfg d ms (hall c d hin) hd.symm
+    (cfg.minMs ≤ cfg.maxMs → cfg.minMs ≤ ms ∧ ms ≤ cfg.maxMs) ∧ (cfg.maxMs ≤ cfg.minMs → ms = cfg.minMs) :=
+  latency_in_range cfg ms (hall c _ (decision_from_obs cfg ops c _ h))
 
 /-- The latency is real virtual time: while asleep a poll before the wake-up instant
 (first poll + latency) does nothing at all; the first poll at or after it calls the inner
 service (the same step a bare call makes). -/
-theorem latency_exact (cfg : Cfg) (s : State) (c u : Nat) (st : Step) (d : Option Draws)
+theorem latency_exact (cfg : Cfg) (s : State) (c u : Nat) (st : Step) (d : Option Decision)
     (hph : lookup s.phase c = some (.sleeping u st)) :
     (s.now < u → stepS cfg s (.poll c d) = s) ∧
     (u ≤ s.now → stepS cfg s (.poll c d) = startInner s c st) := by
@@ -193,37 +216,69 @@ theorem latency_exact (cfg : Cfg) (s : State) (c u : Nat) (st : Step) (d : Optio
 
 /-- A first poll that decides "delay by `ms > 0`" makes no inner call and sleeps until exactly
 first-poll instant + `ms`. -/
-theorem latency_sleep_set (cfg : Cfg) (s : State) (c tag ms : Nat) (st : Step) (d : Draws)
-    (hph : lookup s.phase c = some (.fresh tag st)) (ha : allowed cfg d = true)
-    (hd : (decideDraws cfg d).1 = .latency ms) (hpos : ms > 0) :
-    (stepS cfg s (.poll c (some d))).log = s.log ∧
-    lookup (stepS cfg s (.poll c (some d))).phase c = some (.sleeping (s.now + ms) st) := by
+theorem latency_sleep_set (cfg : Cfg) (s : State) (c k tag ms : Nat) (st : Step)
+    (hph : lookup s.phase c = some (.fresh k tag st)) (ha : allowedDec cfg (.latency ms) = true) (hpos : ms > 0) :
+    (stepS cfg s (.poll c (some (.latency ms)))).log = s.log ∧
+    lookup (stepS cfg s (.poll c (some (.latency ms)))).phase c = some (.sleeping (s.now + ms) st) := by
   have : ¬ (s.now ≥ s.now + ms) := by omega
-  simp [stepS, hph, pollFresh, hd, enact, checked, ha, record, pollSleeping, setPhase, lookup, this]
+  simp [stepS, hph, pollFresh, enact, checked, ha, record, pollSleeping, setPhase, lookup, this]
 
-/-! ## no latency on an injected error -/
+/-- Latency rate 1 without an error injector: every request is delayed, by a value within the bounds. -/
+theorem always_delayed_at_one (cfg : Cfg) (d : Decision) (he : cfg.eT = 0) (hl : cfg.lT = P53)
+    (ha : allowedDec cfg d = true) : ∃ ms, d = .latency ms ∧ inBounds cfg ms = true := by
+  cases d with
+  | error => simp [allowedDec, he] at ha
+  | pass => simp [allowedDec, hl] at ha
+  | latency ms =>
+      refine ⟨ms, rfl, ?_⟩
+      unfold allowedDec at ha
+      simp only [Bool.and_eq_true] at ha
+      exact ha.2
 
-/-- When an error is injected, exactly one draw (the error roll) has been consumed: no latency
-roll, no range draw — the generator is in the state after one `f64`. -/
-theorem no_latency_on_error {γ : Type} (G : Gen γ) (cfg : Cfg) (g : γ) (h : (decideG G cfg g).1 = .error) :
+/-! ## today's decision function (`decideG`, service.rs:64-91) is one admissible function
+
+Nothing above depends on it. These theorems show that the hypotheses on the streams are satisfiable by the code as
+it is today, for every generator within the contracts of `rand`, and record what that function does with its
+draws (no draw at rates 0/0, one draw on an injected error). -/
+
+/-- **Every decision today's code takes is within the boundary clauses**, for every generator within the
+contracts of `rand` in every state — so the stream `genStream G cfg g` of every seed is admissible. -/
+theorem todays_function_is_admissible {γ : Type} (G : Gen γ) (cfg : Cfg) (g : γ) (hL : Lawful cfg G) :
+    allowedDec cfg (decideG G cfg g).1 = true ∧ ∀ i, allowedDec cfg (genStream G cfg g i) = true :=
+  ⟨decideG_allowed G cfg g hL, genStream_allowed G cfg g hL⟩
+
+/-- The machine fed with today's function over equally seeded generators (one per service, all started in state
+`g`): the decisions on every service are the first `n` entries of the seed's stream `streamG G cfg g`. -/
+theorem decisions_are_seed_stream {γ : Type} (G : Gen γ) (cfg : Cfg) (g : γ) (ops : List ROp) (k : Nat) :
+    decsOn (runD (fun _ => genStream G cfg g) cfg ops) k =
+      streamG G cfg g (decsOn (runD (fun _ => genStream G cfg g) cfg ops) k).length := by
+  rw [streamG_eq_map]
+  exact runD_fed (fun _ => genStream G cfg g) cfg ops k
+
+/-- today's function at rates 0/0: "pass", and **no draw is consumed** (the generator is left as it was) -/
+theorem todays_transparent_at_zero {γ : Type} (G : Gen γ) (cfg : Cfg) (g : γ) (he : cfg.eT = 0) (hl : cfg.lT = 0) :
+    decideG G cfg g = (.pass, g) :=
+  decideG_zero G cfg g he hl
+
+/-- today's function at error rate 1: "inject an error", one draw (the error roll) -/
+theorem todays_always_fails_at_one {γ : Type} (G : Gen γ) (cfg : Cfg) (g : γ) (hL : Lawful cfg G) (he : cfg.eT = P53) :
+    decideG G cfg g = (.error, (G.nextF g).2) :=
+  decideG_one G cfg g hL he
+
+/-- today's function: a latency is within the bounds -/
+theorem todays_latency_in_range {γ : Type} (G : Gen γ) (cfg : Cfg) (g : γ) (ms : Nat) (hL : Lawful cfg G)
+    (h : (decideG G cfg g).1 = .latency ms) :
+    (cfg.minMs ≤ cfg.maxMs → cfg.minMs ≤ ms ∧ ms ≤ cfg.maxMs) ∧ (cfg.maxMs ≤ cfg.minMs → ms = cfg.minMs) :=
+  decideG_latency_range G cfg g ms hL h
+
+/-- today's function: when an error is injected, exactly one draw (the error roll) has been consumed: no latency
+roll, no range draw -/
+theorem todays_no_latency_on_error {γ : Type} (G : Gen γ) (cfg : Cfg) (g : γ) (h : (decideG G cfg g).1 = .error) :
     (decideG G cfg g).2 = (G.nextF g).2 ∧ cfg.eT > 0 ∧ (G.nextF g).1 < cfg.eT :=
   ⟨decideG_error_state G cfg g h, (decideG_error_iff G cfg g).mp h⟩
 
-theorem no_latency_on_error_draws (cfg : Cfg) (d : Draws) (h : (decideDraws cfg d).1 = .error) :
-    decideDraws cfg d = (.error, 1) := by
-  rw [decideDraws_eq] at h ⊢
-  by_cases h1 : cfg.eT > 0 ∧ d.r1 < cfg.eT
-  · simp [h1]
-  · exfalso
-    simp only [h1, ↓reduceIte] at h
-    by_cases h2 : cfg.lT > 0
-    · by_cases h3 : (if cfg.eT > 0 then d.r2 else d.r1) < cfg.lT
-      · by_cases hm : cfg.maxMs > cfg.minMs <;> simp [h2, h3, hm] at h
-      · simp [h2, h3] at h
-    · simp [h2] at h
-
-/-- An error is injected exactly when the error rate is positive and the roll is below it. -/
-theorem error_iff {γ : Type} (G : Gen γ) (cfg : Cfg) (g : γ) :
+/-- today's function: an error is injected exactly when the error rate is positive and the roll is below it -/
+theorem todays_error_iff {γ : Type} (G : Gen γ) (cfg : Cfg) (g : γ) :
     (decideG G cfg g).1 = .error ↔ cfg.eT > 0 ∧ (G.nextF g).1 < cfg.eT :=
   decideG_error_iff G cfg g
 
@@ -232,13 +287,13 @@ theorem error_iff {γ : Type} (G : Gen γ) (cfg : Cfg) (g : γ) :
 `let f = svc.call(r); drop(svc); f.await`, `svc.oneshot(r)`: every handle of the service (and the layer) is
 dropped while requests have arrived and have not been polled yet, or are asleep, or are in the inner call.
 The decision of a request belongs to its first poll and to the seed's stream, not to the lifetime of a
-handle. (`decisions_are_seed_stream`, `deterministic`, `always_fails_run`, `error_skips_inner`,
+handle. (`decisions_are_stream`, `deterministic`, `always_fails_run`, `error_skips_inner`,
 `latency_in_range_run` … already quantify over operation lists that contain `dropsvc`.) -/
 
 /-- **Dropping every handle changes nothing for the requests made before.** A run in which every handle
 is dropped at some point is, up to the flag `gone`, the run without that operation and without the
-arrivals after it (those have no handle to be made on): same log, same decisions in the same order, same
-draws consumed — whether the requests pending at that point had been polled or not. -/
+arrivals after it (those have no handle to be made on): same log, same decisions in the same order on every
+service — whether the requests pending at that point had been polled or not. -/
 theorem handles_dropped_no_effect (cfg : Cfg) (ops₁ ops₂ : List Op) :
     run cfg (ops₁ ++ .dropsvc :: ops₂) = noHandles (run cfg (ops₁ ++ ops₂.filter survives)) :=
   run_dropsvc cfg ops₁ ops₂
@@ -247,32 +302,31 @@ theorem handles_dropped_same_behaviour (cfg : Cfg) (ops₁ ops₂ : List Op) :
     (run cfg (ops₁ ++ .dropsvc :: ops₂)).log = (run cfg (ops₁ ++ ops₂.filter survives)).log ∧
     (run cfg (ops₁ ++ .dropsvc :: ops₂)).decs = (run cfg (ops₁ ++ ops₂.filter survives)).decs ∧
     (run cfg (ops₁ ++ .dropsvc :: ops₂)).decOf = (run cfg (ops₁ ++ ops₂.filter survives)).decOf ∧
-    (run cfg (ops₁ ++ .dropsvc :: ops₂)).used = (run cfg (ops₁ ++ ops₂.filter survives)).used ∧
     (run cfg (ops₁ ++ .dropsvc :: ops₂)).phase = (run cfg (ops₁ ++ ops₂.filter survives)).phase := by
-  rw [run_dropsvc]; exact ⟨rfl, rfl, rfl, rfl, rfl⟩
+  rw [run_dropsvc]; exact ⟨rfl, rfl, rfl, rfl⟩
 
-/-- The handles dropped between `call()` and the first poll: that first poll takes the same decision from
-the same draws, consumes the same number of draws and has the same effect (injected error at once / sleep /
-inner call) as with the handles alive. -/
-theorem first_poll_after_handles_dropped (cfg : Cfg) (s : State) (c : Nat) (d : Option Draws) :
+/-- The handles dropped between `call()` and the first poll: that first poll records the same decision and has
+the same effect (injected error at once / sleep / inner call) as with the handles alive. -/
+theorem first_poll_after_handles_dropped (cfg : Cfg) (s : State) (c : Nat) (d : Option Decision) :
     stepS cfg (stepS cfg s .dropsvc) (.poll c d) = noHandles (stepS cfg s (.poll c d)) :=
   stepS_noHandles cfg s (.poll c d) rfl
 
 /-- Error rate 1, the handles dropped before the first poll: the request still fails in that poll with the
 error built from it, nothing is called, nothing sleeps. -/
-theorem always_fails_after_handles_dropped (cfg : Cfg) (s : State) (c tag : Nat) (st : Step) (d : Draws)
-    (he : cfg.eT = P53) (hph : lookup s.phase c = some (.fresh tag st)) (ha : allowed cfg d = true) :
+theorem always_fails_after_handles_dropped (cfg : Cfg) (s : State) (c k tag : Nat) (st : Step) (d : Decision)
+    (he : cfg.eT = P53) (hph : lookup s.phase c = some (.fresh k tag st)) (ha : allowedDec cfg d = true) :
     (stepS cfg (stepS cfg s .dropsvc) (.poll c (some d))).log = s.log ++ [.result c (injected tag)] ∧
     (stepS cfg (stepS cfg s .dropsvc) (.poll c (some d))).serial = s.serial := by
   rw [first_poll_after_handles_dropped]
-  have hd := always_fails_at_one_draws cfg d ha he
-  have h := error_result_immediate cfg s c tag st d hph ha (by rw [hd])
+  have hd := always_fails_at_one cfg d he ha
+  subst hd
+  have h := error_result_immediate cfg s c k tag st hph ha
   exact ⟨h.1, h.2.1⟩
 
 /-- Once every handle is gone no further request can be made. -/
-theorem no_request_without_handle (cfg : Cfg) (s : State) (c tag : Nat) (st : Step) :
-    stepS cfg (stepS cfg s .dropsvc) (.arrive c tag st) = stepS cfg s .dropsvc :=
-  stepS_noHandles_other cfg s (.arrive c tag st) rfl
+theorem no_request_without_handle (cfg : Cfg) (s : State) (c k tag : Nat) (st : Step) :
+    stepS cfg (stepS cfg s .dropsvc) (.arrive c k tag st) = stepS cfg s .dropsvc :=
+  stepS_noHandles_other cfg s (.arrive c k tag st) rfl
 
 /-! ## bounds of a second and more -/
 
@@ -282,27 +336,31 @@ are part of it (this is how `machine.init` reads `min_us` / `max_us`). -/
 theorem bound_in_ms (secs us : Nat) : (secs * 1000000 + us) / 1000 = secs * 1000 + us / 1000 :=
   ms_of_us secs us
 
-/-- An injected latency is never below `min_latency` — for `min ≤ max`, `min = max` and `min > max` alike;
-in particular with `min_latency ≥ secs` seconds every injected latency is at least `1000·secs` ms. -/
-theorem latency_at_least_min {γ : Type} (G : Gen γ) (cfg : Cfg) (g : γ) (ms secs : Nat) (hL : Lawful cfg G)
-    (h : (decideG G cfg g).1 = .latency ms) (hs : secs * 1000 ≤ cfg.minMs) :
-    cfg.minMs ≤ ms ∧ secs * 1000 ≤ ms := by
-  have := decideG_latency_ge_min G cfg g ms hL h
+/-- An injected latency the property allows is never below `min_latency` — for `min ≤ max`, `min = max` and
+`min > max` alike; in particular with `min_latency ≥ secs` seconds every injected latency is at least `1000·secs` ms. -/
+theorem latency_at_least_min (cfg : Cfg) (ms secs : Nat) (ha : allowedDec cfg (.latency ms) = true)
+    (hs : secs * 1000 ≤ cfg.minMs) : cfg.minMs ≤ ms ∧ secs * 1000 ≤ ms := by
+  have hr := latency_in_range cfg ms ha
+  have : cfg.minMs ≤ ms := by
+    by_cases hle : cfg.minMs ≤ cfg.maxMs
+    · exact (hr.1 hle).1
+    · have := hr.2 (by omega); omega
   exact ⟨this, by omega⟩
 
 /-- `min_latency = max_latency = 1 s` at latency rate 1 (no error injector): every request is delayed by
-exactly 1000 ms, for every seed; `[1200, 2800]` ms: by at least 1200 and at most 2800 ms. -/
-theorem one_second_is_one_second {γ : Type} (G : Gen γ) (g : γ) (lo hi : Nat) (hle : lo ≤ hi)
+exactly 1000 ms, whatever the seed and the decision function; `[1200, 2800]` ms: by at least 1200 and at most
+2800 ms. -/
+theorem one_second_is_one_second (d : Decision) (lo hi : Nat) (hle : lo ≤ hi)
+    (ha : allowedDec { eT := 0, lT := P53, minMs := lo, maxMs := hi } d = true) :
+    ∃ ms, d = .latency ms ∧ lo ≤ ms ∧ ms ≤ hi := by
+  obtain ⟨ms, rfl, _⟩ := always_delayed_at_one _ d rfl rfl ha
+  exact ⟨ms, rfl, (latency_in_range _ ms ha).1 hle⟩
+
+/-- …and today's function over any lawful generator is such a decision. -/
+theorem todays_one_second_is_one_second {γ : Type} (G : Gen γ) (g : γ) (lo hi : Nat) (hle : lo ≤ hi)
     (hL : Lawful { eT := 0, lT := P53, minMs := lo, maxMs := hi } G) :
-    ∃ ms, (decideG G { eT := 0, lT := P53, minMs := lo, maxMs := hi } g).1 = .latency ms ∧ lo ≤ ms ∧ ms ≤ hi := by
-  have hroll := hL.roll g
-  by_cases hm : hi > lo
-  · refine ⟨(G.nextR lo hi (G.nextF g).2).1, ?_, hL.range hle _⟩
-    simp only [P53] at hroll
-    simp [decideG, P53, hm, hroll]
-  · refine ⟨lo, ?_, Nat.le_refl _, hle⟩
-    simp only [P53] at hroll
-    simp [decideG, P53, hm, hroll]
+    ∃ ms, (decideG G { eT := 0, lT := P53, minMs := lo, maxMs := hi } g).1 = .latency ms ∧ lo ≤ ms ∧ ms ≤ hi :=
+  one_second_is_one_second _ lo hi hle (decideG_allowed G _ g hL)
 
 /-! ## caller modes: which handle is readied and called
 
@@ -346,83 +404,100 @@ theorem ready_service_admits (v : Via) (sc : List Rdy) (h : ∀ a ∈ sc, a = Rd
 
 /-- A request the wrapped service refused (pending / error) is not made: the machine is untouched, the caller sees
 `notready` — in every mode. -/
-theorem refused_request_is_not_made (cfg : Cfg) (p : Proto) (s : State) (v : Via) (c tag : Nat) (st : Step)
+theorem refused_request_is_not_made (cfg : Cfg) (p : Proto) (s : State) (v : Via) (c k tag : Nat) (st : Step)
     (h : (gate v p.script).1 = false) :
-    (arriveVia cfg p s v c tag st).2 = (s, [Ev.result c .notReady]) := by
+    (arriveVia cfg p s v c k tag st).2 = (s, [Ev.result c .notReady]) := by
   simp [arriveVia, h]
 
 /-- **The caller mode is irrelevant to the layer**: an admitted request is the machine's `arrive`, whichever of the
 four modes it was made in (and whatever the readiness script was). -/
-theorem caller_mode_irrelevant (cfg : Cfg) (p : Proto) (s : State) (v : Via) (c tag : Nat) (st : Step)
+theorem caller_mode_irrelevant (cfg : Cfg) (p : Proto) (s : State) (v : Via) (c k tag : Nat) (st : Step)
     (h : (gate v p.script).1 = true) :
-    (arriveVia cfg p s v c tag st).2.1 = stepS cfg s (.arrive c tag st) := by
+    (arriveVia cfg p s v c k tag st).2.1 = stepS cfg s (.arrive c k tag st) := by
   simp [arriveVia, h]
 
 /-- **Transparent at rates 0/0 in every caller mode**: a request made in ANY mode `v`, over a wrapped service with
 ANY readiness script, once admitted, reaches the wrapped service in its first poll — the step is the bare inner call,
 no draw is consumed — and the strict wrapped service sees a call on an instance that reported ready (`ready=1`). -/
-theorem transparent_any_caller_mode (cfg : Cfg) (p : Proto) (s : State) (v : Via) (c tag : Nat) (st : Step) (d : Draws)
-    (he : cfg.eT = 0) (hl : cfg.lT = 0) (hg : s.gone = false) (hk : known s c = false) (ha : allowed cfg d = true)
+theorem transparent_any_caller_mode (cfg : Cfg) (p : Proto) (s : State) (v : Via) (c k tag : Nat) (st : Step) (d : Decision)
+    (he : cfg.eT = 0) (hl : cfg.lT = 0) (hg : s.gone = false) (hk : known s c = false) (ha : allowedDec cfg d = true)
     (h : (gate v p.script).1 = true) :
-    let r := arriveVia cfg p s v c tag st
+    let r := arriveVia cfg p s v c k tag st
     (∃ rest, (stepS cfg r.2.1 (.poll c (some d))).log = s.log ++ Ev.innerCall c s.serial :: rest) ∧
     (r.1.strict = true → r.1.toEv (Ev.innerCall c s.serial) = Ev.innerCallX c s.serial tag true) := by
-  have h1 : (arriveVia cfg p s v c tag st).2.1 = setPhase s c (.fresh tag st) := by
-    rw [caller_mode_irrelevant cfg p s v c tag st h]; simp [stepS, hg, hk]
-  have hph : lookup (setPhase s c (.fresh tag st)).phase c = some (.fresh tag st) := by simp [setPhase, lookup]
+  have h1 : (arriveVia cfg p s v c k tag st).2.1 = setPhase s c (.fresh k tag st) := by
+    rw [caller_mode_irrelevant cfg p s v c k tag st h]; simp [stepS, hg, hk]
+  have hph : lookup (setPhase s c (.fresh k tag st)).phase c = some (.fresh k tag st) := by simp [setPhase, lookup]
   refine ⟨?_, ?_⟩
-  · show ∃ rest, (stepS cfg (arriveVia cfg p s v c tag st).2.1 (.poll c (some d))).log = _
+  · show ∃ rest, (stepS cfg (arriveVia cfg p s v c k tag st).2.1 (.poll c (some d))).log = _
     rw [h1]
-    exact (transparent_first_poll cfg (setPhase s c (.fresh tag st)) c tag st d he hl hph ha).2
+    exact (transparent_first_poll cfg (setPhase s c (.fresh k tag st)) c k tag st d he hl hph ha).2
   · intro hs
     simp [arriveVia, h, Proto.toEv, lookup] at hs ⊢
     simp [hs]
 
 /-! ## many threads on clones of one service
 
-Assumption (not proved here, it is a property of `std::sync::Mutex`): the rolls of one request are
-drawn atomically — the decision block runs under the mutex of the generator all clones share. Then a
+Assumption (not proved here, it is a property of `std::sync::Mutex`): the decision of one request is taken
+atomically — the decision block runs under the mutex of the generator all clones share. Then a
 parallel execution decides like the sequential run in which the first polls are ordered by lock
-acquisition, i.e. like SOME operation list of the machine, and the theorems above apply to it. The
-theorems below are the oracles of the harness's real-thread stress search (`manual stress`), which
-looks for executions that are not of this kind; that search is sampling, not proof. -/
+acquisition, i.e. like SOME operation list of the machine fed from the service's stream, and the theorems
+above apply to it. The theorems below are the oracles of the harness's real-thread stress search
+(`manual stress`), which looks for executions that are not of this kind; that search is sampling, not proof. -/
 
 /-- **Whatever the interleaving, the same multiset of decisions.** For every schedule (every order in
 which requests of whichever thread arrive, are first polled, polled again, dropped) each decision
-occurs among the decisions taken exactly as often as among the first `n` entries of the seed's
-stream, `n` the number of requests decided. -/
-theorem interleaving_multiset {γ : Type} (G : Gen γ) (cfg : Cfg) (g : γ) (ops : List ROp) (d : Decision) :
-    (runR G cfg g ops).1.decs.count d = (streamG G cfg g (runR G cfg g ops).1.decs.length).count d :=
-  congrArg (List.count d) (runR_synced G cfg g ops).1
+occurs among the decisions taken on the service exactly as often as among the first `n` entries of its
+stream, `n` the number of requests decided — whatever the stream is. -/
+theorem interleaving_multiset (σ : Nat → Nat → Decision) (cfg : Cfg) (ops : List ROp) (k : Nat) (d : Decision) :
+    (decsOn (runD σ cfg ops) k).count d =
+      ((List.range (decsOn (runD σ cfg ops) k).length).map (σ k)).count d :=
+  congrArg (List.count d) (runD_fed σ cfg ops k)
 
 /-- …so two schedules of the same `n` requests (say the threads' requests interleaved in two different
-ways) take the same decisions up to order — in fact in the same order of first polls. -/
-theorem interleavings_agree {γ : Type} (G : Gen γ) (cfg : Cfg) (g : γ) (ops₁ ops₂ : List ROp)
-    (h : (runR G cfg g ops₁).1.decs.length = (runR G cfg g ops₂).1.decs.length) :
-    (runR G cfg g ops₁).1.decs.Perm (runR G cfg g ops₂).1.decs := by
-  rw [(deterministic G cfg g ops₁ ops₂ h).1]
+ways, or the `n` requests made by one thread one after the other) take the same decisions up to order — in
+fact in the same order of first polls. This is the oracle of the stress search: the multiset of the decisions
+of the parallel run is that of a sequential run of an equally seeded service. -/
+theorem interleavings_agree (σ : Nat → Nat → Decision) (cfg : Cfg) (ops₁ ops₂ : List ROp) (k : Nat)
+    (h : (decsOn (runD σ cfg ops₁) k).length = (decsOn (runD σ cfg ops₂) k).length) :
+    (decsOn (runD σ cfg ops₁) k).Perm (decsOn (runD σ cfg ops₂) k) := by
+  rw [deterministic σ cfg ops₁ ops₂ k h]
 
-/-- **Error rate 1: every call fails**, however many calls there are: the seed's stream is "inject"
-throughout (so is the decision list of every schedule, by `decisions_are_seed_stream`). -/
-theorem always_fails_stream {γ : Type} (G : Gen γ) (cfg : Cfg) (g : γ) (hL : Lawful cfg G) (he : cfg.eT = P53)
-    (n : Nat) : streamG G cfg g n = List.replicate n .error :=
-  streamG_all_error G cfg g hL he n
+/-- **Error rate 1: every call fails**, however many calls there are: every admissible stream is "inject"
+throughout (so is the decision list of every schedule, by `decisions_are_stream`). -/
+theorem always_fails_stream (σ : Nat → Nat → Decision) (cfg : Cfg) (he : cfg.eT = P53)
+    (hσ : ∀ k i, allowedDec cfg (σ k i) = true) (k n : Nat) :
+    (List.range n).map (σ k) = List.replicate n .error := by
+  apply List.ext_getElem (by simp)
+  intro i h1 h2
+  simp [always_fails_at_one cfg (σ k i) he (hσ k i)]
 
 /-- Both rates 0: every call passes, however many calls there are. -/
-theorem transparent_stream {γ : Type} (G : Gen γ) (cfg : Cfg) (g : γ) (he : cfg.eT = 0) (hl : cfg.lT = 0)
-    (n : Nat) : streamG G cfg g n = List.replicate n .pass :=
-  streamG_all_pass G cfg g he hl n
+theorem transparent_stream (σ : Nat → Nat → Decision) (cfg : Cfg) (he : cfg.eT = 0) (hl : cfg.lT = 0)
+    (hσ : ∀ k i, allowedDec cfg (σ k i) = true) (k n : Nat) :
+    (List.range n).map (σ k) = List.replicate n .pass := by
+  apply List.ext_getElem (by simp)
+  intro i h1 h2
+  simp [transparent_at_zero cfg (σ k i) he hl (hσ k i)]
 
 /-- The check the model applies to the tallies of a stress run (`stressAllowed`: one decision per call;
 error rate 1 ⇒ all fail; error rate 0 ⇒ none fails; latency rate 0 ⇒ none delayed; latency rate 1 ⇒
-none passes undelayed) holds for the decisions of every schedule, for every seed: the model never
+none passes undelayed) holds for the decisions of every schedule, for every admissible stream: the model never
 rejects an execution that respects the atomicity assumption. -/
-theorem stress_oracle_sound {γ : Type} (G : Gen γ) (cfg : Cfg) (g : γ) (hL : Lawful cfg G) (ops : List ROp) :
-    stressAllowed cfg (runR G cfg g ops).1.decs.length (tally (runR G cfg g ops).1.decs) = true := by
-  have h := (runR_synced G cfg g ops).1
-  have t := stress_tally_allowed G cfg g hL (runR G cfg g ops).1.decs.length
-  rw [← h] at t
-  exact t
+theorem stress_oracle_sound (σ : Nat → Nat → Decision) (cfg : Cfg) (hσ : ∀ k i, allowedDec cfg (σ k i) = true)
+    (ops : List ROp) (k : Nat) :
+    stressAllowed cfg (decsOn (runD σ cfg ops) k).length (tally (decsOn (runD σ cfg ops) k)) = true := by
+  apply allowed_tally
+  intro d hd
+  rw [runD_fed σ cfg ops k] at hd
+  simp only [List.mem_map, List.mem_range] at hd
+  obtain ⟨i, _, rfl⟩ := hd
+  exact hσ k i
+
+/-- …in particular for today's decision function over every lawful generator. -/
+theorem stress_oracle_sound_today {γ : Type} (G : Gen γ) (cfg : Cfg) (g : γ) (hL : Lawful cfg G) (n : Nat) :
+    stressAllowed cfg n (tally (streamG G cfg g n)) = true :=
+  stress_tally_allowed G cfg g hL n
 
 /-- Every decision list is tallied completely: errors + delays + passes = number of calls. -/
 theorem tally_complete (l : List Decision) : (tally l).ne + (tally l).nl + (tally l).np = l.length :=
@@ -440,33 +515,39 @@ example :
     stressAllowed { eT := P53 / 2, lT := P53 / 2, minMs := 1, maxMs := 5 } 7 ⟨3, 2, 1⟩ = false := by
   decide
 
-/-- A generator within the contract exists (so the `Lawful` hypotheses are satisfiable), and on
-it all three decisions occur: rate ½ for both, range [2,5]. -/
+/-- The boundary clauses: at mid rates and range [2,5] all three decisions are allowed, a delay of 6 ms is
+not; at error rate 1 only "inject"; at rates 0/0 only "pass"; at latency rate 1 no undelayed pass;
+`min > max`: the latency is `min`. -/
 example :
     let cfg : Cfg := { eT := P53 / 2, lT := P53 / 2, minMs := 2, maxMs := 5 }
-    (decideDraws cfg ⟨1, 0, 2, 2⟩ = (.error, 1)) ∧
-    (decideDraws cfg ⟨P53 - 1, 7, 3, 4⟩ = (.latency 4, 3)) ∧
-    (decideDraws cfg ⟨P53 / 2, P53 / 2, 3, 4⟩ = (.pass, 2)) ∧
-    allowed cfg ⟨P53 - 1, 7, 3, 4⟩ = true := by
+    allowedDec cfg .error = true ∧ allowedDec cfg (.latency 4) = true ∧ allowedDec cfg .pass = true ∧
+    allowedDec cfg (.latency 6) = false ∧ allowedDec cfg (.latency 1) = false ∧
+    allowedDec { cfg with eT := P53 } .pass = false ∧ allowedDec { cfg with eT := P53 } (.latency 3) = false ∧
+    allowedDec { cfg with eT := 0, lT := 0 } .error = false ∧ allowedDec { cfg with eT := 0, lT := 0 } (.latency 3) = false ∧
+    allowedDec { cfg with eT := 0, lT := P53 } .pass = false ∧
+    allowedDec { eT := 0, lT := P53, minMs := 7, maxMs := 3 } (.latency 7) = true ∧
+    allowedDec { eT := 0, lT := P53, minMs := 7, maxMs := 3 } (.latency 5) = false := by
   decide
 
-/-- `min > max`: the latency is `min`; `min = max`: no range draw is consumed. -/
-example :
-    decideDraws { eT := 0, lT := P53, minMs := 7, maxMs := 3 } ⟨5, 6, 1, 2⟩ = (.latency 7, 1) ∧
-    decideDraws { eT := 0, lT := P53, minMs := 4, maxMs := 4 } ⟨5, 6, 1, 2⟩ = (.latency 4, 1) := by
-  decide
-
-/-- A concrete run: request 1 gets an injected error (no inner call), request 2 is delayed by
+/-- A concrete run on one service: request 1 gets an injected error (no inner call), request 2 is delayed by
 3 ms (polled at 2 ms: nothing; at 3 ms: the inner call), request 3 passes. -/
 example :
     let cfg : Cfg := { eT := P53 / 2, lT := P53 / 2, minMs := 2, maxMs := 5 }
-    let ops := [Op.arrive 1 11 ⟨0, .ok⟩, .arrive 2 12 ⟨0, .ok⟩, .arrive 3 13 ⟨0, .err 1⟩,
-                .poll 1 (some ⟨1, 0, 2, 2⟩), .poll 2 (some ⟨P53 - 1, 7, 2, 3⟩), .poll 3 (some ⟨P53 / 2, P53 / 2, 3, 4⟩),
+    let ops := [Op.arrive 1 0 11 ⟨0, .ok⟩, .arrive 2 0 12 ⟨0, .ok⟩, .arrive 3 0 13 ⟨0, .err 1⟩,
+                .poll 1 (some .error), .poll 2 (some (.latency 3)), .poll 3 (some .pass),
                 .adv 2, .poll 2 none, .adv 1, .poll 2 none]
     (run cfg ops).log =
       [.result 1 (.inner 99 11), .innerCall 3 0, .innerDone 3 0 (.err 1), .result 3 (.inner 1 0),
        .innerCall 2 1, .innerDone 2 1 .ok, .result 2 (.ok 1)] ∧
-    (run cfg ops).decs = [.error, .latency 3, .pass] ∧ (run cfg ops).now = 3 := by
+    decsOn (run cfg ops) 0 = [.error, .latency 3, .pass] ∧ (run cfg ops).now = 3 := by
+  decide
+
+/-- A reported decision outside the boundary clauses is flagged (`choice-not-allowed`): error rate 1 and the
+layer reports "passed through". -/
+example :
+    let cfg : Cfg := { eT := P53, lT := 0, minMs := 0, maxMs := 0 }
+    (run cfg [Op.arrive 1 0 11 ⟨0, .ok⟩, .poll 1 (some .pass)]).log =
+      [.raw "choice-not-allowed", .innerCall 1 0, .innerDone 1 0 .ok, .result 1 (.ok 0)] := by
   decide
 
 /-- Every handle dropped between the arrivals and the first polls (`let f = svc.call(r); drop(svc); f.await`):
@@ -474,11 +555,11 @@ request 1 still gets its injected error, request 2 its delay of 1500 ms out of [
 nothing; at 1500 ms: the inner call); request 3 arrives when there is no handle left and is never made. -/
 example :
     let cfg : Cfg := { eT := P53 / 2, lT := P53, minMs := 1200, maxMs := 2800 }
-    let ops := [Op.arrive 1 11 ⟨0, .ok⟩, .arrive 2 12 ⟨0, .ok⟩, .dropsvc, .arrive 3 13 ⟨0, .ok⟩,
-                .poll 1 (some ⟨1, 0, 1300, 1400⟩), .poll 2 (some ⟨P53 - 1, 7, 1300, 1500⟩), .poll 3 none,
+    let ops := [Op.arrive 1 0 11 ⟨0, .ok⟩, .arrive 2 0 12 ⟨0, .ok⟩, .dropsvc, .arrive 3 0 13 ⟨0, .ok⟩,
+                .poll 1 (some .error), .poll 2 (some (.latency 1500)), .poll 3 none,
                 .adv 1499, .poll 2 none, .adv 1, .poll 2 none]
     (run cfg ops).log = [.result 1 (.inner 99 11), .innerCall 2 0, .innerDone 2 0 .ok, .result 2 (.ok 0)] ∧
-    (run cfg ops).decs = [.error, .latency 1500] ∧ (run cfg ops).now = 1500 ∧ (run cfg ops).gone = true := by
+    decsOn (run cfg ops) 0 = [.error, .latency 1500] ∧ (run cfg ops).now = 1500 ∧ (run cfg ops).gone = true := by
   decide
 
 /-- A generator within the contract exists (`counterGen`: a counter; rolls alternate between 0 and
@@ -487,10 +568,16 @@ example (cfg : Cfg) : Lawful cfg counterGen :=
   ⟨fun g => by show (if g % 2 = 0 then 0 else P53 - 1) < P53; split <;> decide,
    fun h g => ⟨Nat.le_refl _, h⟩⟩
 
+/-- Two services of one layer value, equally seeded (today's function over `counterGen` started at 0 for both),
+traffic interleaved — service 1 serves its first request after service 0 has served two: each service replays the
+seed's stream from its start (`[error, delay 2, …]`), whatever the sibling has served. -/
 example :
     let cfg : Cfg := { eT := P53 / 2, lT := P53, minMs := 2, maxMs := 5 }
-    (runR counterGen cfg 0 [.arrive 1 1 ⟨0, .ok⟩, .arrive 2 2 ⟨0, .ok⟩, .poll 2, .adv 1, .poll 1, .poll 2]).1.decs
-      = [.error, .latency 2] := by
+    let σ : Nat → Nat → Decision := fun _ => genStream counterGen cfg 0
+    let ops := [ROp.arrive 1 0 1 ⟨0, .ok⟩, .arrive 2 1 2 ⟨0, .ok⟩, .arrive 3 0 3 ⟨0, .ok⟩, .arrive 4 1 4 ⟨0, .ok⟩,
+                .poll 3, .poll 1, .adv 1, .poll 4, .poll 2, .poll 3]
+    decsOn (runD σ cfg ops) 0 = [.error, .latency 2] ∧ decsOn (runD σ cfg ops) 1 = [.error, .latency 2] ∧
+    lookup (runD σ cfg ops).decOf 3 = some .error ∧ lookup (runD σ cfg ops).decOf 4 = some .error := by
   decide
 
 end TR.Props.C19
